@@ -189,6 +189,34 @@ CLAIMS["C03"] = (
     "table-and-routing claim only.",
     "DESIGN.md 4/C03")
 
+CLAIMS["C01"] = (
+    "R-MUST-PASS (CFG must-pass-after with per-method summaries computed as a fixpoint over calls on the same object) from every change of the stored values / loaded point set to a decision "
+    "about the hierarchical coefficients, in every entry point of the five grid classes; R-PAIR-ORDER of value merges (shared with C07); R-GUARD of the Kronecker algorithm; tree rebuild (shared with C04)",
+    "Static rule discharge of the structural half of interpolation: on no path does an entry point of GridLocalPolynomial/Sequence/Wavelet/Fourier/Global leave with new values or a new point set "
+    "and the old surpluses / coefficients / tensor bookkeeping (which is how evaluate() at a node stops returning the loaded value without any arithmetic being wrong); values are merged before the "
+    "index set they are ordered by; the complete-hierarchy algorithm runs only when computeDAGup reported completeness; the evaluation tree follows the point set.",
+    "That the computed surpluses / coefficients are the right numbers (van_matrix arithmetic, wavelet solves, FFT-like transforms, Lagrange caches) is numerical and NOT decided: seeds that "
+    "perturb the arithmetic of a solver are out of reach and documented as missed. Found and repaired through this rule: GridFourier::mergeRefinement (9f0a30f), GridWavelet stale matrix (dfb952e).",
+    "DESIGN.md 4/C01")
+CLAIMS["C04"] = (
+    "R-SYMBOLIC by partial evaluation of the local basis routines (support radius vs. zero set of the closed-form basis, tabulated integrals vs. exact integrals); R-SIBLING of the dense and sparse "
+    "hierarchical-matrix routes; R-EXTENT of blocked batch loops; R-MUST-PASS of the tree rebuild; setHierarchicalCoefficients value refresh",
+    "Static rule discharge: for every local rule and point class the declared support contains the set where the closed-form basis is non-zero (so the sparse matrix cannot omit a non-zero "
+    "entry), the sparse and dense matrices come from the same tree walk, batch blocking covers each row exactly once, getArea equals the exact integral of the basis, setHierarchicalCoefficients "
+    "recomputes the values with the surrogate, and the evaluation tree is rebuilt whenever the loaded points change.",
+    "Dense-times-coefficients == evaluate for Global/Sequence/Fourier/Wavelet (Lagrange, Newton, trigonometric and wavelet bases evaluated in loops) is numerical and NOT decided. "
+    "Found and repaired through D1: getSupport<semilocalp> (cbfbc8a).",
+    "DESIGN.md 4/C04")
+CLAIMS["C09"] = (
+    "R-MUST-PASS of an insert-or-park sink in every loadConstructedPoint overload, R-WHO-MAY-CALL for removal of parked samples, R-GUARD of candidate appends, R-PAIR-ORDER of the single-point "
+    "expansion, R-SIBLING of the two GridGlobal overloads (eject after register), R-SYMBOLIC inverse relation between the upward (getParent/getStepParent) and downward (getKid) hierarchy maps",
+    "Static rule discharge of the order-insensitive skeleton of dynamic construction: no delivered sample is dropped on any path; parked samples leave the store only through the extraction "
+    "routines; candidates exclude loaded and already-proposed tensors; the single-point expansion takes the sub-graph before and shifts indices after the insertion; a tensor that becomes "
+    "complete is loaded whichever overload delivered the sample; and every point whose surplus depends on a new point is reachable from it in the sub-graph walk.",
+    "Equality of the final grid over all permutations / batchings of a sample stream is a property of histories and is NOT decided; the rules are necessary conditions found by reading how "
+    "order can matter. One known finding (F24, semi-local step-parents) and one repaired defect (57b61bc).",
+    "DESIGN.md 4/C09")
+
 PENDING = {}
 
 NOT_APPLICABLE = {}
